@@ -40,6 +40,7 @@ isdigit_of = z3.Function("isdigit_of", S, z3.BoolSort())
 join_of = z3.Function("join_of", S, V.SeqVal, S)
 format_of = z3.Function("format_of", S, V.SeqVal, S)
 type_of = z3.Function("type_of", Val, Val)
+opaque_contains = z3.Function("opaque_contains", S, S, z3.BoolSort())
 
 
 # --------------------------------------------------------------------------- char-list strings
@@ -674,6 +675,11 @@ def contains(I, cont, item, node):
                 I.throw("TypeError", "'in <string>' requires string as left operand")
         elif V.ctor_name(si) != "str":
             I.throw("TypeError", "'in <string>' requires string as left operand")
+        hay = z3.simplify(Val.s(sc))
+        if z3.is_app(hay) and hay.decl().kind() == z3.Z3_OP_UNINTERPRETED and hay.num_args() > 0:
+            # the haystack is an uninterpreted string (str(x), s.lower() of a free string ...): the sequence
+            # theory can say nothing about it, so keep the test as an uninterpreted predicate
+            return opaque_contains(hay, Val.s(si))
         return z3.Contains(Val.s(sc), Val.s(si))
     if cn == "obj":
         cd = I.class_of(sc)
@@ -974,6 +980,17 @@ def m_str_split(I, s, args, kwargs, node):
     # assumed here; contracts that need more add the instances they use
     I.assume(z3.Length(r) >= 1)
     return V.VList(r)
+
+
+splitlines_of = z3.Function("splitlines_of", S, V.SeqVal)
+
+
+def m_str_splitlines(I, s, args, kwargs, node):
+    ps = pystr(Val.s(s))
+    if ps is not None and not args and not kwargs:
+        return V.lift(ps.splitlines())
+    # not interpreted: python splits on \n, \r, \r\n, \v, \f, \x1c-\x1e, \x85, U+2028, U+2029
+    return V.VList(splitlines_of(Val.s(s)))
 
 
 def m_str_strip(I, s, args, kwargs, node):
